@@ -44,6 +44,9 @@ pub enum ROp {
 
 #[derive(Clone, Debug, Serialize, Deserialize)]
 pub enum Stream {
+	/// a click through a reverb at two device rates: the delay between the first reflection in the
+	/// left and in the right channel is a time, not a number of frames
+	Reverb { rates: [u32; 2], ibs: usize },
 	Orders { ops: Vec<ROp> },
 	Sched { adds: usize, device: Vec<ROp>, switch_prob: f64 },
 	Seconds { rates: Vec<u32>, change_at: f64, change_to: u32, sound_rate: u32, sound_len: usize, playback_rate: f64, clock_tps: f64, tween_secs: f64, delay_secs: f64, ibs: usize },
@@ -62,7 +65,18 @@ fn gen_case(seed: u64, index: u64, tier: Tier) -> Case {
 	let mut rng = Rng::new(seed);
 	let initial_rate = *rng.pick(&RATES);
 	let stale_ok = !known::is_open("C16-stale-rate-on-queued-track");
-	let stream = match index % 4 {
+	let stream = match if index % 16 == 11 { 9 } else { index % 4 } {
+		9 => {
+			let a = *rng.pick(&RATES);
+			let mut b = *rng.pick(&RATES);
+			if b == a {
+				b = if a == 48_000 { 8_000 } else { 48_000 };
+			}
+			Stream::Reverb {
+				rates: [a, b],
+				ibs: *rng.pick(&[16usize, 64, 128]),
+			}
+		}
 		0 | 1 => {
 			let n = rng.urange(3, if tier == Tier::Quick { 14 } else { 40 });
 			let mut ops = vec![];
@@ -665,8 +679,97 @@ fn run_seconds(
 	res
 }
 
+fn run_reverb(rates: &[u32; 2], ibs: usize) -> CaseResult {
+	let mut res = CaseResult::default();
+	let mut trace = Hasher64::new();
+	let mut spreads = vec![];
+	for rate in rates {
+		let cfg = WorldConfig {
+			sample_rate: *rate,
+			internal_buffer_size: ibs,
+			..Default::default()
+		};
+		let Ok(mut w) = World::new(&cfg, None) else { return res };
+		w.exec(&Op::AddTrack {
+			parent: None,
+			spec: TrackSpec {
+				effects: vec![EffectSpec::Reverb {
+					feedback: Val::Fixed(0.3),
+					damping: Val::Fixed(0.5),
+					stereo_width: Val::Fixed(1.0),
+					mix: Val::Fixed(MixS(1.0)),
+				}],
+				..Default::default()
+			},
+			spatial: None,
+		});
+		let _ = w.callback(ibs, 2);
+		w.exec(&Op::PlayStatic {
+			track: Some(0),
+			data: DataSpec {
+				len: 1,
+				sample_rate: *rate,
+				signal: Signal::Dc(0.5),
+			},
+			slice: None,
+			settings: SoundSettingsSpec::default(),
+		});
+		let (mut first_l, mut first_r) = (None, None);
+		let mut t = 0usize;
+		while (t as f64) < 0.08 * *rate as f64 {
+			let rep = w.callback(ibs, 2);
+			if let Some(p) = rep.panic {
+				res.fail(Violation::new("panic", format!("audio-panic: {}", panic_signature(&p)), p));
+				return res;
+			}
+			for i in 0..ibs {
+				trace.f32(w.out[2 * i]);
+				if first_l.is_none() && w.out[2 * i] != 0.0 {
+					first_l = Some(t + i);
+				}
+				if first_r.is_none() && w.out[2 * i + 1] != 0.0 {
+					first_r = Some(t + i);
+				}
+			}
+			t += ibs;
+		}
+		res.frames += w.frames_rendered;
+		res.callbacks += w.callbacks;
+		res.sim_seconds += w.sim_seconds;
+		match (first_l, first_r) {
+			(Some(l), Some(r)) => spreads.push((r as f64 - l as f64) / *rate as f64),
+			_ => {
+				res.fail(Violation::new("seconds", "reverb-silent", format!("at {rate} Hz a click through the reverb produced no reflection within 80 ms (left {first_l:?}, right {first_r:?})")));
+				return res;
+			}
+		}
+	}
+	let tol = 1.6 / rates[0] as f64 + 1.6 / rates[1] as f64;
+	if (spreads[0] - spreads[1]).abs() > tol {
+		res.fail(Violation::new(
+			"seconds",
+			"reverb-timing-depends-on-device-rate",
+			format!(
+				"the first reflection reaches the right channel {:.3} ms after the left at {} Hz but {:.3} ms after it at {} Hz (tolerance {:.3} ms)",
+				spreads[0] * 1e3,
+				rates[0],
+				spreads[1] * 1e3,
+				rates[1],
+				tol * 1e3
+			),
+		));
+	} else {
+		res.hit("reverb_spreads_compared");
+	}
+	res.nontrivial = true;
+	res.behaviour_sig = (rates[0] as u64) << 32 | rates[1] as u64 | (ibs as u64) << 56;
+	res.trace_hash = trace.finish();
+	res
+}
+
 pub fn run_case(case: &Case) -> CaseResult {
 	match &case.stream {
+		Stream::Reverb { rates, ibs } => run_reverb(rates, *ibs),
 		Stream::Orders { ops } => run_orders(case, ops),
 		Stream::Sched { adds, device, switch_prob } => run_sched(case, *adds, device, *switch_prob),
 		Stream::Seconds { rates, change_at, change_to, sound_rate, sound_len, playback_rate, clock_tps, tween_secs, delay_secs, ibs } => {
@@ -682,7 +785,7 @@ impl Check for C16 {
 		CheckInfo {
 			id: "C16",
 			level: "exploration",
-			rule: "three streams. orders (1/2): seeded sequences over {add (nested) track with a rate-probe effect, add send track with one, drop a track handle (the track lives on while a track below it is alive), change the device sample rate, callback} from 8 kHz to 192 kHz; sched (1/4): a gameplay task adding (nested) tracks against a device task changing the rate and running callbacks, under seeded random schedules at the yield points between reading the shared sample rate and enqueueing the track and inside on_change_sample_rate; seconds (1/4): one scene described in seconds (finite sound at any source rate and playback rate, clock, volume tween, delay echo, a tone behind a low-pass filter) rendered in three worlds at different device rates, the third changing its rate mid-stream; non-trivial = at least two effect process calls checked / worlds compared; distinct = hash of the per-callback (rate, probes) sequence, of the yield trace, of the scene parameters",
+			rule: "four streams. reverb (1/16): a click through a reverb at two device rates, the delay between the first reflection in the left and in the right channel compared in seconds; orders (1/2): seeded sequences over {add (nested) track with a rate-probe effect, add send track with one, drop a track handle (the track lives on while a track below it is alive), change the device sample rate, callback} from 8 kHz to 192 kHz; sched (1/4): a gameplay task adding (nested) tracks against a device task changing the rate and running callbacks, under seeded random schedules at the yield points between reading the shared sample rate and enqueueing the track and inside on_change_sample_rate; seconds (1/4): one scene described in seconds (finite sound at any source rate and playback rate, clock, volume tween, delay echo, a tone behind a low-pass filter) rendered in three worlds at different device rates, the third changing its rate mid-stream; non-trivial = at least two effect process calls checked / worlds compared; distinct = hash of the per-callback (rate, probes) sequence, of the yield trace, of the scene parameters",
 			assumptions: vec![
 				"seconds-domain comparisons allow two callbacks plus a few frames of slack (events are issued at callback boundaries)".into(),
 				"the delay effect restarts with an empty line when the rate changes; the echo is measured from a click issued after the change".into(),
